@@ -277,3 +277,92 @@ func phase3b() {
 		})
 	}
 }
+
+// a Go implementation of sem.Arena over one preallocated buffer (the Gallina model is arena_alloc /
+// arena_put / arena_poke)
+type goArena struct {
+	buf []byte
+	off int
+}
+
+func (a *goArena) Alloc(n int) ([]byte, error) {
+	if n < 0 {
+		panic("negative")
+	}
+	if a.off+n > len(a.buf) {
+		return nil, errShort
+	}
+	a.off += n
+	return a.buf[a.off-n : a.off : a.off], nil
+}
+func (a *goArena) Put(b []byte) (int, error) {
+	if a.off+len(b) > len(a.buf) {
+		return 0, errShort
+	}
+	copy(a.buf[a.off:], b)
+	a.off += len(b)
+	return len(b), nil
+}
+
+// the window w as (start, length) in the arena
+func (a *goArena) window(w []byte) string {
+	if w == nil {
+		return "gregion_nil"
+	}
+	for s := 0; s+len(w) <= len(a.buf); s++ {
+		if len(w) > 0 && &a.buf[s] == &w[0] {
+			return "(" + z(int64(s)) + ", " + z(int64(len(w))) + ")"
+		}
+	}
+	return "(?, ?)"
+}
+
+func phase3c() {
+	const F = "300%nat"
+	for _, pre := range []int{0, 3, 20} {
+		for _, n := range []int{-1, 0, 1, 2, 3, 4, 5, 6, 9, 19, 25} {
+			pre, n := pre, n
+			st0 := make([]byte, pre)
+			for i := range st0 {
+				st0[i] = byte(200 + i)
+			}
+			ex(fmt.Sprintf("g_sem_ArenaFill bytes arena_alloc arena_put arena_poke %s %s %s 40", F, bs(st0), z(int64(n))), func() string {
+				a := &goArena{buf: make([]byte, 24)}
+				copy(a.buf, st0)
+				a.off = pre
+				first, err := sem.ArenaFill(a, n, 40)
+				return "(" + bs(a.buf[:a.off]) + ", " + a.window(first) + ", " + errCode(err) + ")"
+			})
+		}
+	}
+	ms := []map[string]string{nil, {}, {"a": "xx", "": "e"}}
+	for _, m := range ms {
+		for _, k := range []string{"a", "", "q"} {
+			m, k := m, k
+			ex(fmt.Sprintf("g_sem_CfgUse 5 %s %s %s", bs([]byte("s")), strMapLit(m), bs([]byte(k))), func() string {
+				a, s, ok := sem.CfgUse(sem.Cfg{A: 5, S: "s", M: m}, k)
+				return "(" + z(int64(a)) + ", " + bs([]byte(s)) + ", " + bl(ok) + ")"
+			})
+		}
+	}
+	for _, k := range []int8{-128, -4, -3, 0, 2, 3, 127} {
+		k := k
+		ex(fmt.Sprintf("g_sem_MapOkInt (Some [(3, 30); ((-3), 7); (3, 99); ((-128), 5)]) %s", z(int64(k))), func() string {
+			return z(int64(sem.MapOkInt(map[int8]int{3: 30, -3: 7, -128: 5}, k)))
+		})
+		ex(fmt.Sprintf("g_sem_MapOkInt None %s", z(int64(k))), func() string { return z(int64(sem.MapOkInt(nil, k))) })
+	}
+	for _, b := range [][]byte{nil, {7}, {1, 7}, {0, 1, 2, 3, 0, 5}, {3, 255, 1}, {9, 9, 9, 9}} {
+		for _, stop := range []byte{7, 3, 100} {
+			b, stop := b, stop
+			ex(fmt.Sprintf("g_sem_RangeBytes %s %d", bs(b), stop), func() string {
+				s, i, n := sem.RangeBytes(b, stop)
+				return "(" + z(int64(s)) + ", " + z(int64(i)) + ", " + z(int64(n)) + ")"
+			})
+		}
+		for _, k := range []int{0, 1, 3} {
+			b, k := b, k
+			ex(fmt.Sprintf("g_sem_RangeBytesNested %s %s %s", F, bs(b), z(int64(k))), func() string { return z(int64(sem.RangeBytesNested(b, k))) })
+		}
+	}
+}
